@@ -4,7 +4,13 @@ import re
 
 import gen_gin as G
 import gindom
-from gindom import to_driver  # noqa: F401
+
+
+def to_driver(case, impl):
+  if case.get('dom') == 'dyn':
+    from props import c19
+    return c19.to_driver(case, impl)
+  return gindom.to_driver(case, impl)
 from encode import encode
 
 ID = 'C06'
@@ -27,7 +33,7 @@ TRUSTED_BASE = ['Lean 4.33 kernel', 'axioms ⊆ {propext, Classical.choice, Quot
                 'harness gindom.py (line-based reader of the config text) / props/c06.py',
                 'repr / pprint.pformat of values is CPython\'s; only the structure (sections, selectors, order, which '
                 'values are printed) is modelled']
-ASSUMPTIONS = ['static registration (dynamic registration / import aliasing is C19)', 'identifiers ASCII (str.lower)']
+ASSUMPTIONS = ['the structural mirror (emitDoc) is for static registration; under dynamic registration the object-graph mirror and the round-trip oracle of C19 are used', 'identifiers ASCII (str.lower)']
 EXPLANATION = ('Lean theorems about emitDoc: round trip for every configuration reachable by binding (roundtrip_reachable: '
                're-binding the printed lines under their printed names into the cleared store restores exactly the '
                'representable bindings), only representable values are printed, macro/constant sections, sorted '
@@ -172,6 +178,12 @@ def gen_cases(rng, tier, boost=1):
   n = (400 if tier == 'quick' else 12000) * boost
   for _ in range(n):
     yield gen_case(rng)
+  # with dynamic registration: files of the C19 generator (import forms, spellings, references, includes); the
+  # config string is parsed back and the per-object bindings compared (C19's machinery and object-graph mirror)
+  from props import c19
+  import itertools
+  for case in itertools.islice(c19.gen_cases(rng, tier, boost), (150 if tier == 'quick' else 5000) * boost):
+    yield case
 
 
 def ordered_doc(sess, text):
@@ -232,6 +244,9 @@ def _plain(v):
 
 
 def run_impl(case):
+  if case.get('dom') == 'dyn':
+    from props import c19
+    return c19.run_impl(case)
   from encode import Opaque
   Opaque._all.clear()  # pylint: disable=protected-access
   w, ind = case['_width']
@@ -302,6 +317,9 @@ def run_impl(case):
 
 
 def compare(case, impl, model):
+  if case.get('dom') == 'dyn':
+    from props import c19
+    return c19.compare(case, impl, model)
   if 'serialise_error' in impl:
     return f'config_str raised {impl["serialise_error"]}'
   mo = model.get('out')
@@ -318,6 +336,9 @@ def compare(case, impl, model):
 
 
 def oracle(case, impl):
+  if case.get('dom') == 'dyn':
+    from props import c19
+    return c19.oracle(case, impl)
   if 'serialise_error' in impl:
     return f'config_str raised {impl["serialise_error"]}'
   if impl['reparse'] != 'ok':
@@ -339,12 +360,18 @@ def oracle(case, impl):
 
 
 def nontrivial(case, impl):
+  if case.get('dom') == 'dyn':
+    from props import c19
+    return c19.nontrivial(case, impl)
   t = impl.get('text', '')
   return t.count('# Parameters for') >= 2 and ('\\\n' in t or '# None.' in t or any(
       not G_repr(o['val']) for o in case['ops'] if o.get('op') == 'bind'))
 
 
 def tally(stats, case, impl):
+  if case.get('dom') == 'dyn':
+    stats['dynamic_registration_cases'] = stats.get('dynamic_registration_cases', 0) + 1
+    return
   k = 'width:%d/%d' % tuple(case['_width'])
   stats[k] = stats.get(k, 0) + 1
   t = impl.get('text', '')
@@ -354,6 +381,8 @@ def tally(stats, case, impl):
 
 
 def classify(case, impl, model, why_oracle, why_model, findings):
+  if case.get('dom') == 'dyn':
+    return None
   """D24: a section whose values are all unrepresentable is printed as '# None.' and vanishes on re-parse."""
   for f in findings:
     if f['id'] == 'D24' and not why_model and why_oracle and 'serialising again gives a different text' in why_oracle:
